@@ -583,7 +583,12 @@ def emit_section(section: Section, indent: int = 0, format_options: FormatOption
     if hasattr(section, "leading_comments"):
         lines.extend(_emit_leading_comments(section.leading_comments, indent, strip_comments))
 
-    section_line = f"{indent_str}\u00a7{section.section_id}::{section.key}"
+    # A nameless numbered section (§2::, §2b::[note]) takes its id as name.  A name is an
+    # identifier, so "§2b::2b" would not read back: keep the name implicit, as written.
+    section_name = section.key
+    if section_name == section.section_id and (section_name[:1].isdigit() or section_name[:1] == "-"):
+        section_name = ""
+    section_line = f"{indent_str}\u00a7{section.section_id}::{section_name}"
     if section.annotation:
         section_line += f"[{section.annotation}]"
     lines.append(section_line)
